@@ -191,7 +191,12 @@ def check(ctx, h, r):
             post = [t[0] for t in tb if t[1] >= val.end_byte]
             newv = [t[0] for t in toks(r.op[2])]
             if sa != pre + newv + post:
-                ctx.fail({"clause": "replace-locality", **key0}, inp,
+                extra = {}
+                if r is not h.recs[0] and fresh_parse_output(before, r.op) not in (None, out):
+                    # the same operation on a fresh parse of the text the live document shows behaves
+                    # differently: the live object graph has diverged from its own rendering (a history effect)
+                    extra = {"live": "diverged-from-text"}
+                ctx.fail({"clause": "replace-locality", **key0, **extra}, inp,
                          f"{r.op!r}: tokens outside the value of the addressed binding changed: {before!r} -> {out!r}")
                 return
             if canonical and "\n" not in vtext and "\n" not in r.op[2].strip():
@@ -259,6 +264,18 @@ def check(ctx, h, r):
             ctx.fail({"clause": "remove-locality", **key0}, inp,
                      f"{r.op!r}: the output is not the input minus the addressed binding (and its comments): "
                      f"{before!r} -> {out!r}")
+
+
+def fresh_parse_output(text: str, op):
+    """what the operation yields on a fresh parse of `text` (None if it raises)"""
+    from nix_manipulator import parse
+    from nix_manipulator.cli import manipulations as M
+
+    try:
+        src = parse(text)
+        return M.set_value(src, op[1], op[2]) if op[0] == "set" else M.remove_value(src, op[1])
+    except Exception:  # noqa: BLE001
+        return None
 
 
 def strip_let_parens(tl):
